@@ -363,8 +363,13 @@ func init() {
 			kind := kinds[idx%len(kinds)]
 			cls := []string{"valid", "mutated", "random", "outgoing"}[(idx/len(kinds))%4]
 			ops := []string{"new kind=" + kind}
-			seq := 1
-			for i := 0; i < r.Range(6, 14); i++ {
+			var ssrcSeq map[uint32]int
+			burstLen := 0
+			nops := r.Range(6, 14)
+			if cls == "outgoing" {
+				nops = r.Range(8, 18)
+			}
+			for i := 0; i < nops; i++ {
 				ssrc := uint32(r.Range(1, 2))
 				switch cls {
 				case "valid":
@@ -393,9 +398,19 @@ func init() {
 						ops = append(ops, fmt.Sprintf("rtp ssrc=%d b=%s stale=1", ssrc, hexs(b)))
 					}
 				case "outgoing":
-					ops = append(ops, fmt.Sprintf("out ssrc=%d seq=%d len=%d csrc=%d ext=%d", ssrc, seq,
-						r.Pick(0, 1, 1200, 1458, 1459, 1460, 1461, 1500, 4000, 65535), r.Pick(0, 0, 1, 15), r.Intn(2)))
-					seq++
+					// consecutive numbers per stream (FEC batches need them); sizes around every buffer boundary:
+					// 1460 (pooled payload), 1488..1500 (+12 header = 1500 scratch), MTU, far beyond
+					if i == 0 {
+						ssrcSeq = map[uint32]int{1: r.Pick(1, 65530, 30000), 2: r.Pick(1, 65533)}
+						burstLen = r.Pick(0, 1, 1200, 1458, 1459, 1460, 1461, 1487, 1488, 1489, 1495, 1500, 1501, 4000, 65535)
+					}
+					ln := burstLen
+					if r.Chance(1, 3) {
+						ln = r.Pick(0, 1, 1200, 1458, 1459, 1460, 1461, 1488, 1489, 1500, 1501, 4000, 65535)
+					}
+					ops = append(ops, fmt.Sprintf("out ssrc=%d seq=%d len=%d csrc=%d ext=%d", ssrc, ssrcSeq[ssrc]&0xFFFF,
+						ln, r.Pick(0, 0, 0, 1, 15), r.Intn(2)))
+					ssrcSeq[ssrc]++
 				}
 			}
 			ops = append(ops, "end")
